@@ -158,7 +158,7 @@ class Batch:
             if triv:
                 continue
             # fast path 2: purely linear queries are decided in-process (soft timeout works there)
-            if it["inproc"] and not any(_nonlinear(c) for c in conj):
+            if it["inproc"] and len(self.items) <= 64 and not any(_nonlinear(c) for c in conj):
                 r = check_inprocess(conj, timeout_ms=min(int(it["timeout"] * 1000), 20000))
                 if r.status in ("sat", "unsat"):
                     results[i] = r
@@ -168,6 +168,42 @@ class Batch:
             with open(path, "w") as f:
                 f.write(to_smt2(conj))
             jobs.append((i, path, it))
+        # phase 1: chunked workers with a short soft timeout decide the (many) easy queries without
+        # paying one interpreter start-up per query; whatever they leave undecided goes to phase 2
+        if len(jobs) > 2 * JOBS and not second_solver:
+            quick_ms = 4000
+            chunks = [jobs[k::JOBS] for k in range(JOBS)]
+
+            def run_chunk(ci, chunk):
+                lst = os.path.join(self.dir, f"chunk{ci}.lst")
+                with open(lst, "w") as f:
+                    for (i, path, it) in chunk:
+                        f.write(f"{i}\t{path}\n")
+                got = {}
+                hard = len(chunk) * (quick_ms / 1000.0) * 0.5 + 30
+                try:
+                    p = subprocess.Popen([PY, _WORKER, "--chunk", lst, str(quick_ms)], stdout=subprocess.PIPE, stderr=subprocess.DEVNULL, text=True)
+                    try:
+                        out, _ = p.communicate(timeout=hard)
+                    except subprocess.TimeoutExpired:
+                        p.kill()
+                        out, _ = p.communicate()
+                    for line in (out or "").splitlines():
+                        try:
+                            j = json.loads(line)
+                            got[j["idx"]] = j
+                        except Exception:
+                            pass
+                except Exception:
+                    pass
+                return got
+
+            with cf.ThreadPoolExecutor(max_workers=JOBS) as ex:
+                for got in ex.map(lambda a: run_chunk(*a), list(enumerate(chunks))):
+                    for i, j in got.items():
+                        if j["status"] in ("sat", "unsat"):
+                            results[i] = Result(j["status"], j.get("model"), j.get("time", 0.0), by="z3-" + z3.get_version_string())
+            jobs = [(i, path, it) for (i, path, it) in jobs if results[i] is None]
         if jobs:
             with cf.ThreadPoolExecutor(max_workers=JOBS) as ex:
                 futs = {}
